@@ -89,6 +89,33 @@ def build_items(case: Case) -> list[Item]:
                     exp = canon.cerr(e)
                 m = f"(dumps {cfg} {ty} {structs.value_term(r[1], T)})"
                 items.append(Item(case, op, f"rb_eqb {m} {exp}", m, ("dump", r, d)))
+            elif op[0] == "mutdump":
+                # parse, change the element count of one array field, dump: ("mutdump", data, pos, field, "drop" | "dup")
+                r = structs.parse(cs, case.tname, op[1], op[2])
+                if r[0] != "ok":
+                    items.append(Item(case, op, None, None, r, skipped="parse failed"))
+                    continue
+                v = r[1]
+                cur = getattr(v, op[3])
+                if op[4] == "drop":
+                    if len(cur) == 0:
+                        items.append(Item(case, op, None, None, r, skipped="empty"))
+                        continue
+                    new = cur[:-1]
+                else:
+                    new = cur + cur[-1:] if len(cur) else cur
+                    if len(cur) == 0:
+                        items.append(Item(case, op, None, None, r, skipped="empty"))
+                        continue
+                setattr(v, op[3], bytes(new) if isinstance(cur, bytes) else (str(new) if isinstance(cur, str) else list(new)))
+                try:
+                    d = v.dumps()
+                    exp = f"(Ok {canon.cbytes(d)})"
+                except Exception as e:  # noqa: BLE001
+                    d = e
+                    exp = canon.cerr(e)
+                m = f"(dumps {cfg} {ty} {structs.value_term(v, T)})"
+                items.append(Item(case, op, f"rb_eqb {m} {exp}", m, ("mutdump", d)))
             elif op[0] == "layout":
                 offs, size, al = layout_of(T)
                 exp = f"(Ok (mkLay {clist((copt(o, cz) for o in offs), '(option Z)')} {copt(size, cz)} {cz(al)}))"
